@@ -57,6 +57,23 @@ pub fn canon_op(op: &Op) -> Op {
             main_path: main_path.clone(),
             opts: opts.clone(),
         },
+        // the CLI process under hash base 0 with its directories enumerated in sorted order
+        Op::Cli {
+            files,
+            args,
+            main_path,
+            rewrite,
+            debug_log,
+            ..
+        } => Op::Cli {
+            files: files.clone(),
+            args: args.clone(),
+            main_path: main_path.clone(),
+            rewrite: *rewrite,
+            debug_log: *debug_log,
+            hash_base: 0,
+            readdir_seed: 0,
+        },
         // what the buffer held before must not matter
         Op::EditInPlace { src, .. } => Op::EditInPlace {
             before: src.clone(),
